@@ -96,7 +96,7 @@ kind_to_target = dict(
     log2="std::log2({0})",
     log10="std::log10({0})",
     ceil="std::ceil({0})",
-    floor="std::floot({0})",
+    floor="std::floor({0})",
     copysign=NotImplemented,
     round="std::round({0})",
     sign="(({0}) == 0 ? ({0}) : std::copysign(1, {0}))",
